@@ -54,9 +54,9 @@ PROPERTIES = {
         "trusted_base": NUMBIGINT_TB + REPORT_TB + RESOLVER_TB,
     },
     "C11": {
-        "units": ["U-bitvec", "U-format"],
-        "claim": "Raw binary, bit-string and hex-string formats, for outputs of every length (empty and non-multiple included): format_binary yields ceil(len/8) bytes, byte k being bits [8k, 8k+8) MSB first with zero padding; format_str/binstr/hexstr yield ceil(len/b) lower-case digits, digit k being bits [bk, bk+b) MSB first. Bit and hex dumps (format_dump and its two callers): the whole text equals dump_text(bits, len, digit width, byte width, bytes per line): ceil-many lines (one line for an output shorter than a byte), per line the address column, then for every byte its digits MSB first, a digit being '.' only when it starts at or beyond the end of the data and otherwise the digit of its bits with zero padding, group separators, and the character column (printable ASCII as itself, white space as ' ', the rest '.'); only the text of the two format! calls (address column, its width) is an uninterpreted function of their arguments. MIF, separator, C-array and Logisim formats: the whole text equals a spec function of the bits (mif_text / sep_rows / c_array_text / logisim_text): row, value or chunk k is byte (chunk) k of the store, MSB first and zero padded, in order, none dropped or invented, with the format's fixed header/trailer, separators after every value but the last and line breaks after every 16th byte; the text each format! call produces from (literal, arguments) is left as an uninterpreted function, so digit rendering itself (`{:02X}` etc.) is assumed to be what std prints. All of them are panic-free for every length (the empty output included) and for the radices and chunk widths the driver passes. Bit-store layer: BitVec::read_bit returns bit i of the store and false at or beyond len (representation invariant wf, preserved by every write); BitVec::to_bigint is the MSB-first value of exactly len bits.",
-        "not_reached": "Intel HEX (addresses, checksums: a closure capturing `&mut result`, which Verus rejects), the annotated/tcgame/addrspan listings; how std renders a number for a given format literal; get_blocks (sort_by); format selection in the driver",
+        "units": ["U-bitvec", "U-format", "U-listing"],
+        "claim": "Raw binary, bit-string and hex-string formats, for outputs of every length (empty and non-multiple included): format_binary yields ceil(len/8) bytes, byte k being bits [8k, 8k+8) MSB first with zero padding; format_str/binstr/hexstr yield ceil(len/b) lower-case digits, digit k being bits [bk, bk+b) MSB first. Bit and hex dumps (format_dump and its two callers): the whole text equals dump_text(bits, len, digit width, byte width, bytes per line): ceil-many lines (one line for an output shorter than a byte), per line the address column, then for every byte its digits MSB first, a digit being '.' only when it starts at or beyond the end of the data and otherwise the digit of its bits with zero padding, group separators, and the character column (printable ASCII as itself, white space as ' ', the rest '.'); only the text of the two format! calls (address column, its width) is an uninterpreted function of their arguments. MIF, separator, C-array and Logisim formats: the whole text equals a spec function of the bits (mif_text / sep_rows / c_array_text / logisim_text): row, value or chunk k is byte (chunk) k of the store, MSB first and zero padded, in order, none dropped or invented, with the format's fixed header/trailer, separators after every value but the last and line breaks after every 16th byte; the text each format! call produces from (literal, arguments) is left as an uninterpreted function, so digit rendering itself (`{:02X}` etc.) is assumed to be what std prints. All of them are panic-free for every length (the empty output included) and for the radices and chunk widths the driver passes. Contiguous blocks (BitVec::get_blocks, what Intel HEX iterates over): no block is empty, and the set of output bits covered by the blocks is exactly the set of bits covered by the recorded items that have an output position (no bit dropped, none invented), for any span list. Bit-store layer: BitVec::read_bit returns bit i of the store and false at or beyond len (representation invariant wf, preserved by every write); BitVec::to_bigint is the MSB-first value of exactly len bits.",
+        "not_reached": "Intel HEX (addresses, checksums: a closure capturing `&mut result`, which Verus rejects), the annotated/tcgame/addrspan listings; how std renders a number for a given format literal; format selection in the driver",
         "trusted_base": NUMBIGINT_TB,
     },
     "C12": {
